@@ -38,37 +38,77 @@ pub struct RestoreOutput {
     pub queues: Vec<RestoredQueue>,
 }
 
-/// The journal-loading half of `bootstrap::start_server`, in the same order:
-/// load the event file, seed the state counters, restore jobs and queues.
-pub fn restore_journal(
-    path: &Path,
-    state_ref: &StateRef,
-    server_ref: &ServerRef,
-) -> crate::Result<RestoreOutput> {
+/// A journal loaded by `StateRestorer::load_event_file` (first half of
+/// `bootstrap::start_server`); the counters are available before the server is created.
+pub struct LoadedJournal {
+    restorer: StateRestorer,
+    server_uid: String,
+}
+
+pub fn load_journal(path: &Path) -> crate::Result<LoadedJournal> {
     let mut restorer = StateRestorer::default();
     restorer.load_event_file(path)?;
     let server_uid = restorer.take_server_uid();
-    let worker_id_counter = restorer.worker_id_counter();
-    let queue_id_counter = restorer.queue_id_counter();
-    let truncate_size = restorer.truncate_size();
-    let job_id_counter = restorer.job_id_counter();
-    let mut state = state_ref.get_mut();
-    state.restore_state(&restorer);
-    let (task_submits, queues) = restorer.restore_jobs_and_queues(&mut state, server_ref)?;
-    Ok(RestoreOutput {
+    Ok(LoadedJournal {
+        restorer,
         server_uid,
-        job_id_counter,
-        worker_id_counter,
-        queue_id_counter,
-        truncate_size,
-        task_submits,
-        queues: queues
-            .into_iter()
-            .map(|q| RestoredQueue {
-                queue_id: q.queue_id,
-                params: *q.params,
-                worker_resources: q.worker_resources,
-            })
-            .collect(),
     })
+}
+
+impl LoadedJournal {
+    pub fn server_uid(&self) -> &str {
+        &self.server_uid
+    }
+
+    pub fn worker_id_counter(&self) -> WorkerId {
+        self.restorer.worker_id_counter()
+    }
+
+    pub fn queue_id_counter(&self) -> QueueId {
+        self.restorer.queue_id_counter()
+    }
+
+    pub fn job_id_counter(&self) -> u32 {
+        self.restorer.job_id_counter()
+    }
+
+    pub fn truncate_size(&self) -> Option<u64> {
+        self.restorer.truncate_size()
+    }
+
+    /// Second half of `bootstrap::start_server`: seed the state counters, restore jobs and
+    /// queues into a freshly created server.
+    pub fn restore(
+        self,
+        state_ref: &StateRef,
+        server_ref: &ServerRef,
+    ) -> crate::Result<RestoreOutput> {
+        let LoadedJournal {
+            restorer,
+            server_uid,
+        } = self;
+        let worker_id_counter = restorer.worker_id_counter();
+        let queue_id_counter = restorer.queue_id_counter();
+        let truncate_size = restorer.truncate_size();
+        let job_id_counter = restorer.job_id_counter();
+        let mut state = state_ref.get_mut();
+        state.restore_state(&restorer);
+        let (task_submits, queues) = restorer.restore_jobs_and_queues(&mut state, server_ref)?;
+        Ok(RestoreOutput {
+            server_uid,
+            job_id_counter,
+            worker_id_counter,
+            queue_id_counter,
+            truncate_size,
+            task_submits,
+            queues: queues
+                .into_iter()
+                .map(|q| RestoredQueue {
+                    queue_id: q.queue_id,
+                    params: *q.params,
+                    worker_resources: q.worker_resources,
+                })
+                .collect(),
+        })
+    }
 }
